@@ -48,12 +48,18 @@ func C06Config(prop string, r *Rand, tier string) map[string]int64 {
 	c["w_rpcfault"] = int64(r.Range(0, 8))
 	c["w_crash"] = int64(r.Range(0, 4))
 	c["w_crashat"] = int64(r.Range(0, 5))
+	// the syncer's store refuses every write for a while (full disk): the driver keeps retrying the block it
+	// holds while the downloader, the chain and the detector go on
+	c["w_diskfull"] = 0
+	if r.Bool(35) {
+		c["w_diskfull"] = int64(r.Range(1, 4))
+	}
 	c["sub_first"] = 0 // restart order: 0 = Start then Subscribe; 1 = Subscribe then Start (both exist in cmd/run.go's race)
 	if r.Bool(30) {
 		c["sub_first"] = 1
 	}
 	if r.Bool(15) {
-		c["w_rpcfault"], c["w_crash"], c["w_crashat"] = 0, 0, 0
+		c["w_rpcfault"], c["w_crash"], c["w_crashat"], c["w_diskfull"] = 0, 0, 0, 0
 	}
 	return c
 }
@@ -131,6 +137,13 @@ func runC06(tr *Trace, sc *Script, rec *Recorder, scratch string) *Violation {
 	onTrack := func(num uint64, hash common.Hash) {
 		if nodeRef == nil || *nodeRef == nil {
 			return
+		}
+		if !chain.IsCanonical(num, hash) {
+			// the driver hands over a block that was replaced while it waited (in the download buffer or in a retry)
+			rec.Stats.Inc("blocks_handed_over_after_they_were_replaced")
+			if num <= chain.Finalized {
+				rec.Stats.Inc("blocks_handed_over_after_they_were_replaced_below_finality")
+			}
 		}
 		var h *string
 		if err := (*nodeRef).store.P.DB().QueryRow("SELECT hash FROM block WHERE num = ?", num).Scan(&h); err == nil && h != nil && common.HexToHash(*h) != hash {
@@ -272,6 +285,7 @@ func runC06(tr *Trace, sc *Script, rec *Recorder, scratch string) *Violation {
 	// (in the middle of a transaction too); what both files held at that instant is all that survives
 	imgDir := filepath.Join(dir, "crashimg")
 	imgTaken, imgArmed := false, ""
+	diskFull := false
 	takeImage := func() {
 		os.RemoveAll(imgDir)
 		_ = CopyDBFiles(storePath, filepath.Join(imgDir, filepath.Base(storePath)))
@@ -280,10 +294,20 @@ func runC06(tr *Trace, sc *Script, rec *Recorder, scratch string) *Violation {
 	}
 	gen := func(r *Rand) (Op, bool) {
 		labels := w.ParkedLabels()
-		wts := []int{int(cfg["w_mine"]), int(cfg["w_fork"]), int(cfg["w_fin"]), int(cfg["w_rel"]), int(cfg["w_time"]), int(cfg["w_rpcfault"]), int(cfg["w_crash"]), int(cfg["w_crashat"])}
-		if imgArmed != "" {
+		wts := []int{int(cfg["w_mine"]), int(cfg["w_fork"]), int(cfg["w_fin"]), int(cfg["w_rel"]), int(cfg["w_time"]), int(cfg["w_rpcfault"]), int(cfg["w_crash"]), int(cfg["w_crashat"]), int(cfg["w_diskfull"])}
+		if imgArmed != "" || diskFull {
 			wts[7] = 0
-		} else {
+		}
+		if imgArmed != "" {
+			wts[8] = 0
+		}
+		if diskFull {
+			// while the driver is stuck with a block the world goes on: this is where in-flight state piles up
+			wts[8] = wts[8] + 2
+			wts[1] *= 3
+			wts[2] *= 3
+		}
+		if imgArmed == "" && !diskFull {
 			// a reorg of processed blocks is waiting to be noticed and handled: the interesting moment to die
 			for _, sb := range prevStored {
 				if sb.Num != 0 && !chain.IsCanonical(sb.Num, sb.Hash) {
@@ -326,6 +350,8 @@ func runC06(tr *Trace, sc *Script, rec *Recorder, scratch string) *Violation {
 				fm = replyDeadline
 			}
 			return Op{K: "rel", S: labels[r.Intn(len(labels))], A: []int64{fm}}, true
+		case 8:
+			return Op{K: "diskfull"}, true
 		case 7:
 			k := 1 + r.Intn(8)
 			if r.Bool(30) {
@@ -438,8 +464,22 @@ func runC06(tr *Trace, sc *Script, rec *Recorder, scratch string) *Violation {
 		case "time":
 			w.Advance(time.Duration(op.Arg(0)) * time.Millisecond)
 			rec.Step("T")
-		case "crashat":
+		case "diskfull":
 			if imgArmed != "" {
+				break
+			}
+			if diskFull {
+				DisarmFault(storePath)
+				diskFull = false
+				rec.Step("DF0")
+			} else {
+				ArmFault(storePath, &FaultPlan{DenyAllWrites: true})
+				diskFull = true
+				rec.Stats.Inc("fault_store_disk_full")
+				rec.Step("DF1")
+			}
+		case "crashat":
+			if imgArmed != "" || diskFull {
 				break
 			}
 			imgArmed = storePath
@@ -453,6 +493,10 @@ func runC06(tr *Trace, sc *Script, rec *Recorder, scratch string) *Violation {
 			if imgArmed != "" {
 				DisarmFault(imgArmed)
 				imgArmed, imgTaken = "", false
+			}
+			if diskFull {
+				DisarmFault(storePath)
+				diskFull = false
 			}
 			stop()
 			crashed = true
@@ -495,6 +539,10 @@ func runC06(tr *Trace, sc *Script, rec *Recorder, scratch string) *Violation {
 	}
 	_ = crashed
 
+	if diskFull {
+		DisarmFault(storePath)
+		diskFull = false
+	}
 	// drain: the chain stops changing; fair policy; bounded liveness, then convergence
 	converged := func() (bool, string) {
 		cur, err := stored()
@@ -532,10 +580,27 @@ func runC06(tr *Trace, sc *Script, rec *Recorder, scratch string) *Violation {
 	chain.Safe = chain.HeadNum()
 	cap := 600 + 60*int(chain.HeadNum())
 	rr := 0
+	// the chain is static and no fault is injected any more: when the stored blocks have not changed for 420 steps
+	// (several detector periods and dozens of polls with every configuration) they will not -
+	// e.g. the driver retrying a block that can never succeed (recorded finding F15) would otherwise burn
+	// hundreds of thousands of retries before the step cap is reached
+	lastDigest, unchanged := "", 0
 	for i := 0; i < cap; i++ {
 		if i%6 == 0 {
 			if ok, _ := converged(); ok {
 				break
+			}
+			if cur, err := stored(); err == nil {
+				d := fmt.Sprint(cur)
+				if d == lastDigest {
+					unchanged += 6
+				} else {
+					lastDigest, unchanged = d, 0
+				}
+				if unchanged >= 420 {
+					rec.Stats.Inc("drain_stopped_at_fixed_point")
+					break
+				}
 			}
 		}
 		ps := w.Parked()
